@@ -405,13 +405,15 @@ def resize(catalog, ratio=None, psfhelper=None):
 
         for i, src in enumerate(catalog):
             # the new source size is the previous size, convolved with the
-            # expanded psf
-            src.a = np.sqrt(
-                src.a ** 2 + (src.psf_a) ** 2 * (1 - 1 / ratio ** 2)
-            )
-            src.b = np.sqrt(
-                src.b ** 2 + (src.psf_b) ** 2 * (1 - 1 / ratio ** 2)
-            )
+            # expanded psf. A ratio of 1 changes nothing, also for sources
+            # whose catalogue psf is unknown (nan)
+            if ratio != 1:
+                src.a = np.sqrt(
+                    src.a ** 2 + (src.psf_a) ** 2 * (1 - 1 / ratio ** 2)
+                )
+                src.b = np.sqrt(
+                    src.b ** 2 + (src.psf_b) ** 2 * (1 - 1 / ratio ** 2)
+                )
             # source with funky a/b are also rejected
             if not np.all(np.isfinite((src.a, src.b))):
                 log.info(
